@@ -171,6 +171,43 @@ def proof_status(driver, ctx):
     return st
 
 
+def anchor_files(prop):
+    """Source files the property is anchored in (properties.jsonl) plus any the driver names (ANCHOR_FILES)."""
+    files = []
+    with open(os.path.join(VERIF, "properties.jsonl")) as f:
+        for line in f:
+            d = json.loads(line)
+            if d["id"] == prop:
+                files = [x for x in d.get("anchors", {}).get("files", []) if x.endswith(".py")]
+    return files
+
+
+def fingerprint(path):
+    import hashlib
+    try:
+        with open(path, "rb") as f:
+            return hashlib.sha256(f.read()).hexdigest()[:16]
+    except OSError:
+        return "missing"
+
+
+def anchors_changed(driver, prop):
+    """Anchored source files whose content differs from the fingerprint recorded (in the committed
+    anchors.json) when model and theorems were last validated against them. A difference is not a
+    violation: it only makes this run search harder (budget x4) from the start."""
+    repo = os.environ.get("VERIF_REPO", "/repo")
+    try:
+        with open(os.path.join(VERIF, "anchors.json")) as f:
+            recorded = json.load(f)
+    except OSError:
+        return []
+    out = []
+    for rel in sorted(set(anchor_files(prop)) | set(getattr(driver, "ANCHOR_FILES", []))):
+        if recorded.get(rel) is not None and fingerprint(os.path.join(repo, rel)) != recorded[rel]:
+            out.append(rel)
+    return out
+
+
 def load_findings():
     with open(os.path.join(VERIF, "known_findings.json")) as f:
         return json.load(f)
@@ -195,7 +232,9 @@ def main(argv=None):
     seed = int(os.environ.get("VERIF_SEED", "0"))
     t0 = time.time()
     driver = importlib.import_module("harness.%s" % prop.lower())
-    ctx = Ctx(prop, args.tier, seed)
+    changed = [] if args.replay else anchors_changed(driver, prop)
+    ctx = Ctx(prop, args.tier, seed, widen=4 if changed else 1)
+    ctx.anchors_changed = changed
     try:
         if args.replay:
             with open(args.replay) as f:
@@ -310,6 +349,7 @@ def run_check(driver, ctx, t0):
         "known_findings_seen": {k: len(v) for k, v in seen.items()},
         "known_finding_examples": {k: {"case": v[0].case, "observed": v[0].observed, "expected": v[0].expected} for k, v in seen.items()},
         "widened_search": widened,
+        "anchored_sources_changed": getattr(ctx, "anchors_changed", []),
     }
     if "coqchk" in st:
         cov["coqchk"] = st["coqchk"]
